@@ -648,6 +648,7 @@ class ExecBase:
             h.fields[fld] = self.havoc_like(old, f"{h.name or 'o'}.{fld}")
         elif isinstance(h, HList):
             h.items = None
+            h.tail = []
             h.seq = fresh("lst", SeqU)
         elif isinstance(h, HDict):
             h.items = {}
